@@ -1561,8 +1561,10 @@ def kh_reference_strategy(tier: str):
     @st.composite
     def build(draw):
         host, addr, port = draw(kh_query_st())
-        allow_imp = draw(st.integers(0, 9)) == 9
-        non_ascii = draw(st.integers(0, 11)) == 11
+        # at most one of the shapes behind a known finding per file
+        quirk = draw(st.integers(0, 19))
+        allow_imp = quirk == 18
+        non_ascii = quirk == 19
         lines = draw(st.lists(kh_line(host, addr, port, allow_imp=allow_imp,
                                       non_ascii=non_ascii),
                               min_size=1, max_size=max_lines))
@@ -1772,9 +1774,11 @@ def ak_reference_strategy(tier: str):
              'principals': draw(st.lists(st.sampled_from(PRINCIPALS),
                                          max_size=3, unique=True))
              if ca else None}
-        allow_imp = draw(st.integers(0, 11)) == 11
-        non_ascii = draw(st.integers(0, 13)) == 13
-        kwcase = draw(st.integers(0, 13)) == 13
+        # at most one of the shapes behind a known finding per file
+        quirk = draw(st.integers(0, 23))
+        allow_imp = quirk == 21
+        non_ascii = quirk == 22
+        kwcase = quirk == 23
         lines = draw(st.lists(ak_line(q, allow_imp, non_ascii, kwcase),
                               min_size=1, max_size=max_lines))
         return {'lines': lines, 'q': q,
